@@ -186,6 +186,16 @@ func (c Cfg) Val(n uint64) interface{} {
 		return n
 	case "bytes":
 		return []byte(strconv.FormatUint(n, 10))
+	case "nb":
+		// []byte with two special values: 1 is the nil slice, 2 the empty non-nil slice
+		// (different values: not DeepEqual, marshaled as null and as "")
+		switch n {
+		case 1:
+			return []byte(nil)
+		case 2:
+			return []byte{}
+		}
+		return []byte(strconv.FormatUint(n, 10))
 	case "str":
 		return strconv.FormatUint(n, 10)
 	case "ptr":
@@ -221,6 +231,12 @@ func (c Cfg) ValNat(v interface{}) uint64 {
 	case uint64:
 		return x
 	case []byte:
+		if c.VKind == "nb" && x == nil {
+			return 1
+		}
+		if c.VKind == "nb" && len(x) == 0 {
+			return 2
+		}
 		n, err := strconv.ParseUint(string(x), 10, 64)
 		if err != nil {
 			panic(err)
@@ -257,7 +273,7 @@ func (c Cfg) ValuesLike() interface{} {
 	switch c.VKind {
 	case "u64":
 		return uint64(0)
-	case "bytes":
+	case "bytes", "nb":
 		return []byte{}
 	case "str":
 		return ""
